@@ -186,6 +186,34 @@ impl<'a> EM<'a> {
         };
         self.rec.ev("e_cmp", body, true);
     }
+    /// Range<Epoch>::contains and RangeInclusive
+    pub fn range_contains(&mut self, lo: Epoch, hi: Epoch) {
+        let a = self.e;
+        let r = catch(|| ((lo..hi).contains(&a), (lo..=hi).contains(&a)));
+        let res = match r {
+            Ok((x, y)) => format!("{{\"excl\":{},\"incl\":{}}}", jbool(x), jbool(y)),
+            Err(m) => jpanic(&m),
+        };
+        self.rec.ev("e_range", format!("\"lo\":{},\"hi\":{},\"res\":{}", jepoch(lo), jepoch(hi), res), true);
+    }
+    /// the from_<scale>_duration constructors
+    pub fn from_x_duration(&mut self, ts: TimeScale, d: Duration) {
+        self.rec.episode();
+        let r = match ts {
+            TimeScale::TAI => catch(|| Epoch::from_tai_duration(d)),
+            TimeScale::TT => catch(|| Epoch::from_tt_duration(d)),
+            TimeScale::UTC => catch(|| Epoch::from_utc_duration(d)),
+            TimeScale::GPST => catch(|| Epoch::from_gpst_duration(d)),
+            TimeScale::GST => catch(|| Epoch::from_gst_duration(d)),
+            TimeScale::BDT => catch(|| Epoch::from_bdt_duration(d)),
+            TimeScale::QZSST => catch(|| Epoch::from_qzsst_duration(d)),
+            TimeScale::ET => catch(|| Epoch::from_et_duration(d)),
+            TimeScale::TDB => catch(|| Epoch::from_tdb_duration(d)),
+            _ => catch(|| Epoch::from_duration(d, ts)),
+        };
+        let (c, n) = d.to_parts();
+        self.set("eload", format!("\"ts\":{},\"c\":{},\"n\":{}", ts_idx(ts), c, limbs(n as u128)), r, true);
+    }
     pub fn snap(&mut self, which: u8, s: Duration) {
         let a = self.e;
         let (op, r) = match which {
@@ -572,11 +600,15 @@ pub fn c05(rec: &mut Rec, lm: &Landmarks, rng: &mut Rng, thorough: bool) {
     );
     // random: round trips, commutation with addition, identity, all accessor spellings
     let n = if thorough { 150_000 } else { 6_000 };
-    for _ in 0..n {
+    for i in 0..n {
         let a = *rng.pick(&UNIFORM);
         let b = *rng.pick(&UNIFORM);
         let v = g.any_elapsed(rng, a);
-        m.eload_dur(a, v);
+        if i % 4 == 0 {
+            m.from_x_duration(a, v);
+        } else {
+            m.eload_dur(a, v);
+        }
         match rng.below(4) {
             0 => {
                 m.to_scale(b);
@@ -867,6 +899,42 @@ pub fn c12(rec: &mut Rec, lm: &Landmarks, rng: &mut Rng, thorough: bool) {
             m.to_scale(c);
             m.cmp(f);
         }
+        if rng.chance(1, 4) {
+            // ranges: [f, f + dd) and [f, f + dd] around the register
+            let dd = g.small_dur(rng);
+            let hi = safe_epoch(|| f + dd);
+            m.range_contains(f, hi);
+            m.range_contains(hi, f);
+        }
+    }
+    // sorting vectors of epochs in mixed scales
+    let ns = if thorough { 3_000 } else { 150 };
+    for _ in 0..ns {
+        let len = 2 + rng.below(10) as usize;
+        let mut xs: Vec<Epoch> = Vec::new();
+        let base_ts = *rng.pick(&EXACT);
+        let base = Epoch::from_duration(ns_dur(crate::p_text::elapsed_4digit(rng, base_ts)), base_ts);
+        for _ in 0..len {
+            let ts = *rng.pick(&EXACT);
+            let dd = match rng.below(3) {
+                0 => ns_dur(rng.below(5) as i128 - 2),
+                1 => ns_dur((rng.below(120) as i128 - 60) * NS_S as i128),
+                _ => g.small_dur(rng),
+            };
+            xs.push(safe_epoch(|| (base + dd).to_time_scale(ts)));
+        }
+        let mut ys = xs.clone();
+        let r = catch(|| {
+            ys.sort();
+            ys
+        });
+        let xin: Vec<String> = xs.iter().map(|x| jepoch(*x)).collect();
+        let res = match r {
+            Ok(ys) => format!("{{\"v\":[{}]}}", ys.iter().map(|x| jepoch(*x)).collect::<Vec<_>>().join(",")),
+            Err(p) => jpanic(&p),
+        };
+        m.rec.episode();
+        m.rec.ev("e_sort", format!("\"xs\":[{}],\"res\":{}", xin.join(","), res), true);
     }
 }
 
@@ -1072,6 +1140,25 @@ pub fn c09_fields(m: &mut EM, rng: &mut Rng, thorough: bool, with_weekday: bool,
 
 pub fn c16_epochs(m: &mut EM, g: &EpGen, rng: &mut Rng, thorough: bool) {
     c09_fields(m, rng, thorough, true, false);
+    // next/previous weekday at midnight / noon, for epochs after their scale's zero (where the elapsed
+    // time of day is the civil time of day)
+    {
+        let wds = [Weekday::Monday, Weekday::Tuesday, Weekday::Wednesday, Weekday::Thursday, Weekday::Friday, Weekday::Saturday, Weekday::Sunday];
+        for i in 0..(if thorough { 30_000 } else { 1_200 }) {
+            let ts = [TimeScale::TAI, TimeScale::UTC, TimeScale::TT][i % 3];
+            let v = rng.below(2_900_000) as i128 * NS_DAY as i128 + rng.below(NS_DAY) as i128;
+            m.eload_dur(ts, ns_dur(v));
+            let a = m.e;
+            let w = *rng.pick(&wds);
+            let (next, h, r) = match i % 4 {
+                0 => (true, 0u64, catch(|| a.next_weekday_at_midnight(w))),
+                1 => (true, 12, catch(|| a.next_weekday_at_noon(w))),
+                2 => (false, 0, catch(|| a.previous_weekday_at_midnight(w))),
+                _ => (false, 12, catch(|| a.previous_weekday_at_noon(w))),
+            };
+            m.rec.ev("x_next_at", format!("\"w\":{},\"next\":{},\"h\":{},\"res\":{}", u8::from(w), jbool(next), limbs(h as u128), jres_epoch(&r)), true);
+        }
+    }
     // other scales, dates before 1900, next / previous
     let wds = [Weekday::Monday, Weekday::Tuesday, Weekday::Wednesday, Weekday::Thursday, Weekday::Friday, Weekday::Saturday, Weekday::Sunday];
     let n = if thorough { 60_000 } else { 3_000 };
